@@ -141,7 +141,8 @@ func tryReadVariableName(input string) (string, bool, int) {
 	default:
 		// Not the beginning of an expression, ie, an operator
 		// that doesn't begin an expression.  Return the operator
-		// and the first rune in the string.
-		return string(operator) + string(input[0]), false, 1
+		// and the first byte of the string (the byte, not string(input[0]),
+		// which would re-encode the first byte of a multi-byte character).
+		return string(operator) + input[0:1], false, 1
 	}
 }
